@@ -268,7 +268,7 @@ def run_plan(pid, tier, seed, extra_cov=None, t0=None):
     runs, events, hangs = run_crash(scripts, pid)
     C.panic_violations(pid, runs, {sc["run"]: sc for sc in scripts}, violations)
     for h in hangs:
-        p = C.write_replay(pid, "hang-%d" % len(violations), dict(kind="hang", what=h))
+        p = C.write_replay(pid, "hang-%d" % len(violations), C.hang_payload(h, {sc["run"]: sc for sc in scripts}))
         violations.append(dict(prop=pid, replay=p, what="call did not return: " + h[:200]))
     script_by_run = {sc["run"]: sc for sc in scripts}
     n_images = sum(1 for rs in runs.values() for r in rs if r.get("ev") == "Image")
@@ -386,7 +386,7 @@ def run_faults(pid, tier, seed, plan, rng, t0, states, trans, mcs, violations):
         if fid:
             known.append(fid)
             continue
-        p = C.write_replay(pid, "hang-%d" % len(violations), dict(kind="hang", what=h))
+        p = C.write_replay(pid, "hang-%d" % len(violations), C.hang_payload(h, {sc["run"]: sc for sc in fscripts}))
         violations.append(dict(prop=pid, replay=p, what="a commit under an injected fault did not return: " + h[:200]))
     fs_by_run = {sc["run"]: sc for sc in fscripts}
     accepted_total, rejections = 0, []
